@@ -26,7 +26,7 @@ SHRINK_KEYS = ('msgs', 'cuts')
 ASSUMPTIONS = [
     'independent RFC 9174 codec vlib/ref9174.py; MSG_REJECT octet order follows the pinned unit-test vector',
     'a "read" is one recv() of at most CHUNK_SIZE octets on the simulated socket',
-    'no TLS in these streams, so octets may follow the contact header in the same read (ch_joined cases)',
+    'without TLS octets may follow the contact header in the same read (ch_joined cases); with the scripted TLS each delivered chunk is one record of at most 16384 octets',
     'XFER_REFUSE and XFER_ACK for unknown transfers are left to C17 (they raise in the handler, not in the framing)',
 ]
 EXHAUSTIVE_PART = 'all 2^(n-1) cut compositions of post-handshake streams up to 12 (quick) / 16 (thorough) octets; every single cut and octet-at-a-time for all enumerated streams'
@@ -139,7 +139,7 @@ def _default_init():
 def _render(case):
     ''' :return: (stream bytes, reference message list with 'end' offsets) '''
     from vlib import ref9174 as r, strat9174 as s9
-    msgs = [{'t': 'CH', 'magic': r.MAGIC.hex(), 'version': 4, 'flags': 0}, case.get('sess_init') or _default_init()]
+    msgs = [{'t': 'CH', 'magic': r.MAGIC.hex(), 'version': 4, 'flags': 1 if case.get('tls') else 0}, case.get('sess_init') or _default_init()]
     msgs += [s9.expand(m) for m in case['msgs']]
     data = b''
     out = []
@@ -178,6 +178,7 @@ def stream_cases(draw):
         cuts = set(range(step, total, step))
     case['cuts'] = sorted(c for c in cuts if 0 < c < total)
     case['ch_joined'] = draw(st.booleans())
+    case['tls'] = draw(st.sampled_from([False, False, True]))
     return case
 
 
@@ -252,6 +253,14 @@ def enumerate_cases(tier):
                                                   r.transfer_length_ext(300)])],
         [{'t': 'XFER_ACK', 'flags': 0, 'id': 1, 'length': 2}, {'t': 'KEEPALIVE'}, {'t': 'KEEPALIVE'}],
     ]
+    # under TLS: a segment larger than one read (10240) inside one record, and a small message in the tail of such a record
+    for active in (False, True):
+        big = {'t': 'XFER_SEGMENT', 'flags': 3, 'id': 5, 'dlen': 12000, 'dseed': 2, 'ext': [r.transfer_length_ext(12000)]}
+        for msgs in ([big], [big, {'t': 'KEEPALIVE'}], [dict(big, dlen=10235, ext=[r.transfer_length_ext(10235)]), {'t': 'KEEPALIVE'}, {'t': 'KEEPALIVE'}]):
+            base = {'kind': 'stream', 'active': active, 'sess_init': None, 'msgs': msgs, 'queue_own': False, 'tls': True}
+            data, refs = _render(base)
+            yield dict(base, cuts=[refs[1]['end']])
+            yield dict(base, cuts=[refs[1]['end'], refs[1]['end'] + 4000, refs[1]['end'] + 8000])
     inits = [None, {'t': 'SESS_INIT', 'keepalive': 30, 'segment_mru': 64, 'transfer_mru': 2 ** 64 - 1,
                     'nodeid': 'dtn://' + 'n' * 20 + '/', 'ext': [{'flags': 0, 'type': 0x00fe, 'value': '010203'}]}]
     for active in (False, True):
@@ -292,9 +301,15 @@ def run_stream(case, out):
     total = len(data)
     # ch_joined: the octets after the contact header may share a read with it (a passive peer that has already seen
     # our header may send its header and SESS_INIT in one flight; the property quantifies over every split anyway)
-    cuts = sorted(set([c for c in case.get('cuts', []) if 0 < c < total] + ([] if case.get('ch_joined') else [6])))
+    tls = bool(case.get('tls'))
+    cuts = sorted(set([c for c in case.get('cuts', []) if 0 < c < total] + ([] if case.get('ch_joined') and not tls else [6])))
     active = bool(case.get('active'))
-    cfg = tw.make_config('dtn://real/')
+    if tls:
+        # under (scripted) TLS the octets reach the endpoint in records: one record per delivered chunk, at most 16384
+        # octets, read through a socket that keeps what was not asked for (see FakeTLSSocket)
+        cfg = tw.make_config('dtn://real/', tls_enable=True, tls_script={'handshake': 'ok', 'peer_cert_der': None, 'records': True})
+    else:
+        cfg = tw.make_config('dtn://real/')
     world = tw.World(cfg, scripted=True, real_is_passive=not active)
     end = world.real
     hdl = end.hdl
@@ -385,6 +400,8 @@ def run_stream(case, out):
     bounds = set(m['end'] for m in want)
     split_inside = any(c not in bounds for c in cuts)
     out.nontrivial = len(want) >= 3 and split_inside
+    if tls:
+        out.label('tls-records')
     out.label('ch-joined' if case.get('ch_joined') and (not cuts or cuts[0] > 6) else 'ch-alone')
     out.label('active' if active else 'passive', 'msgs:%d' % min(len(want), 9),
               'split-inside' if split_inside else 'no-split', 'cuts:%s' % ('0' if not cuts else ('1' if len(cuts) == 1 else 'many')))
